@@ -673,8 +673,13 @@ def gen_sample_signed_wide(rng):
 
 def gen_limits(rng, ys):
     srt = sorted(set(ys))
-    kind = rng.choice(["none", "none", "left", "right", "both", "left@obs", "right@obs", "right@min", "both@obs"])
+    kind = rng.choice(["none", "none", "left", "right", "both", "left@obs", "right@obs", "right@min", "both@obs",
+                       "left~obs", "right~obs", "right~obs"])
     mid = lambda a, b: (a + b) / 2  # noqa: E731
+    # "~obs": a limit within 1e-9 relative of an observation but not equal to it, on either side -- for a float32 sample that is inside
+    # the spacing of the sample's dtype (the limit is a double: `ys <= limit`, `ys > limit` are decided between doubles), for a float64
+    # sample it is an ordinary limit just beside an observation
+    near = lambda v: v + rng.choice([-1.0, 1.0]) * max(abs(v), 1e-30) * 10.0 ** rng.uniform(-12.0, -8.5)  # noqa: E731
     lo, hi = -INF, INF
     if len(srt) == 1:
         v = srt[0]
@@ -704,6 +709,10 @@ def gen_limits(rng, ys):
         hi = srt[0]
     elif kind == "both@obs":
         lo, hi = q1, q3p
+    elif kind == "left~obs":
+        lo = near(q1)
+    elif kind == "right~obs":
+        hi = near(q3p)
     if not lo < hi:
         lo, hi = -INF, hi if hi > srt[0] else INF
     return lo, hi
